@@ -57,6 +57,7 @@
   Only property theorems, witnesses and examples here; lemmas are in `Proofs/KeyRef.lean`.
 -/
 import RedkaModel.Proofs.KeyRef
+import RedkaModel.Proofs.KeyCross
 import RedkaModel.Props.C01
 
 namespace Redka.Props.C06
@@ -78,6 +79,8 @@ instance (op : Op) : Decidable (IsFamOp op) := inferInstanceAs (Decidable (_ = t
 /-- every operation of the family is covered; of `DB.Key()` only `keyDeleteExpired` (separate
 theorem, the specification gives it no result) and `keyScan` (C16) are outside the family -/
 def Covered : Op → Bool := isKeyOp
+
+theorem covered_all : ∀ op, IsFamOp op → Covered op = true := fun _ h => h
 
 /-- D06, exactly as in `Spec.known` -/
 def LenStale (op : Op) (now : Int) (db : DB) : Bool :=
@@ -225,6 +228,14 @@ theorem deleteExpired_check : ∀ (inTx : Bool) (n now : Int) (db : DB), db.Inv 
   obtain ⟨⟨c, hc⟩, ha⟩ := deleteExpired_invisible n now db hinv
   unfold Spec.check
   simp only [hc, ha now (Int.le_refl _), Spec.isErr, decide_true, Bool.not_false, Bool.and_self]
+
+/-- `DeleteAll` inside a transaction (documented: "should not be run inside a database
+transaction"): the rows are deleted, then `VACUUM` fails; `key_refines_partial` is about the
+`DB`-level call, which runs it on the bare handle. -/
+theorem deleteAll_in_tx_fails : ∀ (now : Int) (db : DB),
+    (Model.tx true .keyDeleteAll now db).out = .error .sqlOther ∧
+    (Model.tx false .keyDeleteAll now db).out = .ok .nil :=
+  fun _ _ => ⟨rfl, rfl⟩
 
 /-! ### sequences of operations -/
 
@@ -378,19 +389,19 @@ theorem map_eq_error {f : Val → Val} {o : Out} {e : Err} (h : o.map f = .error
 visible key. -/
 theorem exists_iff_visible : ∀ (k : Bytes) (now : Int) (db : DB), db.Inv →
     (Model.dbRun (.keyExists k) now db).out = .ok (.bool (Spec.get (Spec.abs now db) k).isSome) :=
-  fun k now db h => (keyExists_refines (DB.Inv.wf h) now k).1
+  fun k now _ h => (keyExists_refines (DB.Inv.wf h) now k).1
 
 /-- `Count` is the number of visible keys among the given names (a name given twice counts once:
 it is a count of keys, not of arguments). -/
 theorem count_counts_visible : ∀ (ks : List Bytes) (now : Int) (db : DB), db.Inv →
     (Model.dbRun (.keyCount ks) now db).out
       = .ok (.int ((Spec.abs now db).filter (fun p => ks.contains p.1)).length) :=
-  fun ks now db h => (keyCount_refines (DB.Inv.wf h) now ks).1
+  fun ks now _ h => (keyCount_refines (DB.Inv.wf h) now ks).1
 
 /-- "… and key count": once no expired row is stored, `Len` is the number of visible keys. -/
 theorem len_counts_visible : ∀ (now : Int) (db : DB), db.Inv → LenStale .keyLen now db = false →
     (Model.dbRun .keyLen now db).out = .ok (.int (Spec.abs now db).length) :=
-  fun now db h hl => (keyLen_refines (DB.Inv.wf h) hl).1
+  fun _ _ h hl => (keyLen_refines (DB.Inv.wf h) hl).1
 
 /-- "type lookup": `Get` on a visible key reports its name, its type and its expiry. -/
 theorem type_lookup : ∀ (k : Bytes) (e : Entry) (now : Int) (db : DB), db.Inv →
@@ -586,6 +597,37 @@ theorem persist_clears_expiry : ∀ (k : Bytes) (e : Entry) (now : Int) (db : DB
   show Spec.get (Spec.abs now (Model.keyPersist db k now).db) k = _
   rw [href.2, get_purge ((sorted_abs hw.names now).put k _), get_put]
   simp [liveAt]
+
+/-! ### one name, one type -/
+
+/-- "a type-specific write to a key of another type is refused with a type error, a type-specific
+read of it sees nothing, and neither changes anything" — for each of the 54 type-specific
+operations that name exactly one key (`Model.singleKey`), on any tables satisfying the invariant
+in which that name is visibly held by a key of another type (`Spec.crossType`):
+
+  * no table row changes;
+  * an operation that would create the key if the name were free (`Model.creates`: set, increment,
+    push, add, hash set …) reports `ErrKeyType`;
+  * every other operation — the reads, and the writes that only touch existing elements (pop,
+    delete, trim, list set, list insert) — answers exactly what it answers on an empty database.
+
+`Set(...).IfExists()` counts as a read here: for it "the key exists" means "a string exists"
+(C01 `setcmd_matrix`). Operations naming several keys are the business of their families. -/
+theorem wrong_type_refused_notrace : ∀ (op : Op) (k : Bytes) (now : Int) (db : DB), db.Inv →
+    singleKey op = some k → Spec.crossType op now db = true →
+    let r := Model.dbRun op now db
+    r.db = db ∧ r.out = if creates op then .error .keyType else (Model.dbRun op now {}).out := by
+  intro op k now db hinv hsk hc
+  obtain ⟨_, t, hty⟩ := opKeys_single hsk
+  obtain ⟨r, hl, hne⟩ := crossType_single hsk hty hc
+  exact cross_type_single (DB.Inv.wf hinv).names hsk hty hl hne
+
+/-- … in particular the abstract keyspace is what it was -/
+theorem wrong_type_keyspace_unchanged : ∀ (op : Op) (k : Bytes) (now : Int) (db : DB), db.Inv →
+    singleKey op = some k → Spec.crossType op now db = true →
+    Spec.abs now (Model.dbRun op now db).db = Spec.abs now db := by
+  intro op k now db hinv hsk hc
+  rw [(wrong_type_refused_notrace op k now db hinv hsk hc).1]
 
 /-! ### the deviations are real -/
 
@@ -793,6 +835,26 @@ example :
 example : Spec.get (Spec.abs 10 (Model.dbRun (.keyExpireAt bA 5) 10 demo).db) bA = none :=
   (expireAt_sets_expiry bA 5 ⟨.str [52, 49], none⟩ 10 demo (by unfold DB.Inv; decide)
     (by decide)).2.trans (by decide)
+
+/-- every hypothesis of `wrong_type_refused_notrace` holds for operations of each type on `demo`
+("a" is a string, "l" a list) -/
+example : ∀ op ∈ [Op.listPushBack bA [120], .listLen bA, .listPopFront bA, .listRange bA 0 (-1),
+      .setAdd bA [[120]], .setItems bL, .hashSet bL [102] [118], .hashGet bA [102], .hashLen bL,
+      .zAdd bA [109] (.fin 1), .zLen bL, .zRangeRank bA 0 5 false, .strSet bL [120], .strGet bL,
+      .strIncr bL 1, .strSetWith bL [120] { ifExists := true }],
+    (singleKey op).isSome = true ∧ Spec.crossType op 10 demo = true := by
+  decide +kernel
+
+/-- the theorem instantiated: a push onto the string "a" is refused, its length as a list is 0 -/
+example :
+    (Model.dbRun (.listPushBack bA [120]) 10 demo).out = .error .keyType ∧
+    (Model.dbRun (.listPushBack bA [120]) 10 demo).db = demo ∧
+    (Model.dbRun (.listLen bA) 10 demo).out = .ok (.int 0) := by
+  have h1 := wrong_type_refused_notrace (.listPushBack bA [120]) bA 10 demo (by unfold DB.Inv; decide)
+    rfl (by decide)
+  have h2 := wrong_type_refused_notrace (.listLen bA) bA 10 demo (by unfold DB.Inv; decide)
+    rfl (by decide)
+  exact ⟨h1.2, h1.1, h2.2⟩
 
 /-- a run on `demo` that satisfies the hypotheses of `keyspace_seq_refines`: create "n", give it
 five milliseconds to live, rename it, read it under the new name, let it expire, run the cleaner,
